@@ -842,7 +842,7 @@ class Interp(CallMixin):
             if v.fields.get("done"):
                 return []
             v.fields["done"] = True
-            return self.run_function(v.fields["func"], v.fields["args"], v.fields["kwargs"], node)
+            return self.iterate(self.run_function(v.fields["func"], v.fields["args"], v.fields["kwargs"], node), node, frame)
         raise Unsupported(f"iteration over {v!r} at line {getattr(node, 'lineno', '?')}")
 
     # ------------------------------------------------------------------ expressions
@@ -1143,6 +1143,8 @@ class Interp(CallMixin):
                 return StrT((Opaque(f"{cont!r}[{lo}:{hi}]"),))  # some part of a text that is not known literally
             self.unsupported(e, frame, "slice")
         idx = self.eval(e.slice, frame)
+        if getattr(e, "_vstat_unpack", False) and not isinstance(cont, (list, tuple, str)):
+            cont = self.iterate(cont, e, frame)  # unpacking takes the items of any iterable (a generator expression ...)
         if isinstance(cont, Obj) and cont.cls == "builtins.module_globals":
             if not isinstance(idx, str):
                 self.unsupported(e, frame, f"globals()[{idx!r}]")
